@@ -29,7 +29,9 @@ MANIFEST = {
 }
 RULE = ('all leading shapes up to rank 3 with axis lengths 0-4 x every axis argument (None, each +/- axis, every tuple '
         'of distinct axes incl. permuted/negative entries and (), plus out-of-range, duplicated and mixed illegal ones; '
-        '15% as numpy.int64) x 10 reductions x int/float data with ties and extremes x mask patterns '
+        '15% as numpy.int64) x 10 reductions x int/float data with ties and extremes (ordering operations: dtype '
+        'limits, +/-inf; sum/mean/median: +/-inf of one sign at 30-90% of the positions in a quarter of the float '
+        'operands, so that the middle unmasked values of a lane are infinite) x mask patterns '
         'none/all/mixed/whole lanes masked x mask representations (False, True, array, broadcast view) x operand '
         'provenance (C, Fortran, read-only, strided, negative-stride, transposed, broadcast-view VALUE arrays; array masks '
         'likewise); quick samples 2 (data, mask) draws per (shape, axis, op), thorough 8 x every representation; '
@@ -46,7 +48,10 @@ ASSUMPTIONS = ['no integer overflow in sums (the model computes in unbounded int
                'builtins=True: the property is silent; the oracle only demands that the conversion does not change what '
                'is observable and that the documented masked= value is returned for a single masked result (judge_builtin); '
                'the exact rule is in the model (asBuiltin, builtinsApplies) and compared']
-TRUSTED_EXTRA = ['numpy.ma as the reference for reductions over the unmasked elements (oracle only)']
+TRUSTED_EXTRA = ['numpy.ma as the reference for reductions over the unmasked elements (oracle only); sort and median are '
+                 'judged lane by lane with plain NumPy on the unmasked elements (numpy.ma misplaces an unmasked +inf / '
+                 'dtype maximum next to masked entries)',
+                 'wire rule for float infinities: exact model results at or beyond inf/2^20 denote +/-inf (ieeeSat)']
 
 INF = 8 * 2 ** 1030            # wire code of +inf for float data (larger than 8 * any finite float64)
 I64MIN, I64MAX = -2 ** 63, 2 ** 63 - 1
@@ -81,6 +86,8 @@ def enc(v, k):
     return int(v) * k
 
 def enc_frac(v, k):
+    if isinstance(v, (float, np.floating)) and not np.isfinite(v):
+        return 'NaN' if v != v else [INF if v > 0 else -INF, 1]
     # the exact mean is (integer sum)/(count <= 64); two such fractions differ by >= 1/4096, the float is much closer
     f = Fraction(float(v) * k).limit_denominator(64)
     return [f.numerator, f.denominator]
@@ -353,8 +360,17 @@ def expect_red(name, vals, mbits, shape, ax, k, limits_):
         res = getattr(ma, name)(axis=ax)
         return ma_obs(res, allm, rs, 1)
     if name == 'median':
-        res = np.ma.median(ma, axis=pyaxis(ax))
-        return ma_obs(res, allm, rs, 2 * k)
+        # lane by lane: np.median of the unmasked elements.  (numpy.ma.median agrees except that it inherits
+        # numpy.ma.sort's misplacement of an unmasked +inf next to masked entries and then drops it.)
+        keep = [i for i in range(rank) if i not in axes]
+        v2 = np.transpose(vals, keep + list(axes)).reshape([shape[i] for i in keep] + [-1])
+        m2 = np.transpose(mask, keep + list(axes)).reshape([shape[i] for i in keep] + [-1])
+        out = []
+        with np.errstate(all='ignore'):
+            for idx in np.ndindex(*v2.shape[:-1]):
+                u = v2[idx][~m2[idx]]
+                out.append('M' if u.size == 0 else enc(np.median(u), 2 * k))
+        return [rs, out]
     res = getattr(ma, name)(axis=pyaxis(ax) if rank else None)
     return ma_obs(res, allm, rs, k, frac=(name == 'mean'))
 
@@ -687,9 +703,21 @@ def rand_vals(rng, n, dtype, name):
                       if name in ORDER_OPS else [])
         for _ in range(rng.randint(1, max(1, n // 2))):
             vals[rng.randrange(n)] = rng.choice(pool)
-    if name in ('sum', 'mean', 'median') and dtype == 'float':
-        # keep float arithmetic exact: at most one huge magnitude class per operand
-        pass
+    return vals
+
+def inf_mode(rng, vals, p=0.6):
+    """float data for the ARITHMETIC reductions with infinities of ONE sign (both signs give NaN everywhere:
+    nothing to learn), dense enough that the middle unmasked value(s) of most lanes are infinite"""
+    s = rng.choice([INF, -INF])
+    return [s if rng.random() < p else v for v in vals]
+
+def clamp_arith(rng, vals, dtype, infp=0.25):
+    """keep sums/means/medians exact in float64: huge finite values are cut to 2^20 (wire 2^23); with probability
+    `infp` float data get infinities of one sign"""
+    vals = [v if abs(v) == INF else max(min(v, 2 ** 23), -2 ** 23) for v in vals]
+    vals = [v if abs(v) != INF else (2 ** 23 if v > 0 else -2 ** 23) for v in vals]
+    if dtype == 'float' and vals and rng.random() < infp:
+        vals = inf_mode(rng, vals, rng.choice([0.3, 0.6, 0.9]))
     return vals
 
 def mk(case):
@@ -767,7 +795,7 @@ def gen_cases(rng, tier):
                         else:
                             vals = rand_vals(rng, n, dtype, name)
                             if name in ('sum', 'mean', 'median') and dtype == 'float':
-                                vals = [v if abs(v) < 2 ** 30 else (2 ** 23 if v > 0 else -2 ** 23) for v in vals]
+                                vals = clamp_arith(rng, vals, dtype)
                             if name == 'mean' and dtype == 'int':
                                 # keep the float quotient within 1e-6 of the exact mean (see enc_frac)
                                 vals = [max(min(v, 2 ** 31), -2 ** 31 - 1) for v in vals]
@@ -825,7 +853,7 @@ def gen_cases(rng, tier):
                         dtype = rng.choice(['int', 'float'])
                         vals = rand_vals(rng, n, dtype, name)
                         if name in ('sum', 'mean', 'median'):
-                            vals = [max(min(v, 2 ** 23), -2 ** 23) for v in vals]
+                            vals = clamp_arith(rng, vals, dtype)
                         cases.append(mk({'op': 'ured', 'name': name, 'shape': shape, 'dtype': dtype, 'vals': vals,
                                          'mask': rep, 'axis': ax, 'units': rng.choice([None, 'km']), 'bi': bi,
                                          'warm': warm, 'prov': pick_prov(rng, shape)}))
@@ -843,7 +871,7 @@ def gen_cases(rng, tier):
         pname, bits = rng.choice(mask_patterns(shape, rng))
         prov = rng.choice(PROVS)
         vals = rand_vals(rng, n, dtype, 'sum')
-        vals = [max(min(v, 2 ** 23), -2 ** 23) for v in vals]
+        vals = clamp_arith(rng, vals, dtype, 0.2)
         if prov == 'bview': vals = tile_rows(vals, shape)
         steps = []
         for _k in range(rng.randint(2, 5)):
